@@ -256,7 +256,7 @@ def run(ctx):
     from .c09 import load_file_identity_rule
     load_file_identity_rule(ctx, program, "R10.G")
 
-    ctx.rule("R10.D", "discovery: load paths cover top level, scripts/**, configured apps and modules; '#' files are skipped; apps need configuration", floor=4)
+    ctx.rule("R10.D", "discovery: load paths cover top level, scripts/**, configured apps and modules; '#' files are skipped; apps need configuration (file-tree model)", floor=2)
     lp = None
     for n in body_walk(f):
         if isinstance(n, ast.Assign) and norm(n.targets[0]) == "load_paths" and isinstance(n.value, ast.List):
@@ -264,14 +264,7 @@ def run(ctx):
     exp = {("", "*.py", False, True), ("apps", "*/__init__.py", True, True), ("apps", "*.py", True, True), ("apps", "*/**/*.py", False, False),
            ("modules", "*/__init__.py", False, False), ("modules", "*.py", False, False), ("modules", "*/**/*.py", False, False), ("scripts", "**/*.py", False, True)}
     ctx.check(lp is not None and set(lp) == exp, "R10.D", LS, "load path table (path, glob, needs app config, autoload)", msg=f"load_paths is {lp}", key="load paths", node=f, rel="__init__.py")
-    g = program.func("__init__.py::load_scripts.glob_read_files")
-    txt = norm(g)
-    ctx.check("rel_path[0] == '#' or rel_path.find('/#') >= 0" in txt, "R10.D", "__init__.py::load_scripts.glob_read_files", "'#' files and directories are skipped",
-              msg="glob_read_files no longer skips files/directories whose name starts with '#'", key="# skipping", node=g, rel="__init__.py")
-    ctx.check("app_name not in apps_config" in txt and "check_config" in txt, "R10.D", "__init__.py::load_scripts.glob_read_files", "apps without configuration are skipped",
-              msg="glob_read_files no longer requires an apps: configuration entry for an app", key="app gating", node=g, rel="__init__.py")
-    ctx.check("global_ctx_name = f'file.{mod_name}'" in txt and "global_ctx_name in ctx2source" in txt, "R10.D", "__init__.py::load_scripts.glob_read_files", "context naming and duplicate suppression",
-              msg="glob_read_files no longer names top-level scripts file.<name> / suppresses duplicates", key="context naming", node=g, rel="__init__.py")
+    discovery_table(ctx, program, "R10.D")
     return (
         "Static, source-only: load_scripts (including its recursive import-closure helper, with sets and dictionaries modelled concretely and by-reference parameters written back) is abstractly "
         "interpreted on 14 file-tree models; the GlobalContextMgr.delete / load_file events are compared with the discard and load sets the statement requires, and their order with the "
@@ -324,3 +317,75 @@ def started_table(ctx, program, rid):
         missing = sorted(loaded - set(got or []))
         ctx.check(got is not None and not missing, rid, uid, f"model: {label}", msg=f"reload model '{label}' (global_ctx={arg!r}): load_scripts (re)loads {sorted(loaded)} but start_global_contexts starts only {got}: "
                   f"{missing} {'is' if len(missing) == 1 else 'are'} loaded with auto-start off, its triggers never run until another reload", key=f"started {label}", node=program.func(uid), rel="__init__.py")
+
+
+DISCOVERY_TREE = ["main.py", "#off.py", "scripts/a/b.py", "scripts/#x/c.py", "scripts/top.py", "apps/a1/__init__.py", "apps/a1/helper.py", "apps/a1.py", "apps/a2.py", "apps/a3.py",
+                  "apps/a3pkg/__init__.py", "modules/m1.py", "modules/pkg/__init__.py", "modules/pkg/sub.py", "modules/pkg/#old.py", "notes.txt"]
+
+
+def _glob_model(pattern, recursive):
+    import re as _re
+    root = "/cfg/pyscript/"
+    rel = pattern[len(root):] if pattern.startswith(root) else pattern.lstrip("/")
+    rx = ""
+    i = 0
+    while i < len(rel):
+        if rel.startswith("**/", i) and recursive:
+            rx += "(?:.*/)?"
+            i += 3
+        elif rel[i] == "*":
+            rx += "[^/]*"
+            i += 1
+        else:
+            rx += _re.escape(rel[i])
+            i += 1
+    return sorted(root + f for f in DISCOVERY_TREE if _re.fullmatch(rx, f))
+
+
+def discovery_table(ctx, program, rid):
+    """glob_read_files interpreted on a file-tree model with the load-path table of load_scripts."""
+    LSF = program.func(LS)
+    lp = None
+    for n in body_walk(LSF):
+        if isinstance(n, ast.Assign) and norm(n.targets[0]) == "load_paths" and isinstance(n.value, ast.List):
+            lp = [tuple(ast.literal_eval(e) for e in row.elts) for row in n.value.elts]
+    if lp is None:
+        raise AnalysisError("load_scripts: load_paths table not found")
+    uid = "__init__.py::load_scripts.glob_read_files"
+
+    def gglob(i, n, a, k, c, o):
+        rec = k.get("recursive", Const(False))
+        return [(c, ListV([Const(x) for x in _glob_model(a[0].v, bool(getattr(rec, "v", False)))], "list"))]
+
+    pol = FlowPolicy(program, may_raise_all=False, cancel=False, globals_={"pyscript_dir": Const("/cfg/pyscript")},
+                     summaries={"glob.glob": gglob, "open": lambda i, n, a, k, c, o: [(c, ObjV("fd", "file"))], "file_desc.read": lambda i, n, a, k, c, o: [(c, Const("src"))],
+                                "os.path.getmtime": lambda i, n, a, k, c, o: [(c, Const(1))],
+                                "SourceFile": lambda i, n, a, k, c, o: [(c, DictV([(Const(kk), vv) for kk, vv in k.items()]))]})
+    pol.loop_unroll = 20
+    pol.max_cfgs = 4000
+    apps_config = DictV([(Const("a1"), DictV([(Const("x"), Const(1))])), (Const("a2"), DictV([]))])
+    load_paths = ListV([ListV([Const(x) for x in row], "list") for row in lp], "list")
+    out = run_flow(program, uid, pol, args={"load_paths": load_paths, "apps_config": apps_config})
+    want = {
+        "file.main": (True, False, None), "scripts.a.b": (True, False, None), "scripts.top": (True, False, None),
+        "apps.a1": (True, True, "apps/a1/__init__"), "apps.a2": (True, True, None), "apps.a1.helper": (False, False, None),
+        # an unconfigured app package is not run, but its files stay importable (matched by the non-autoload apps/*/**/*.py entry)
+        "apps.a3pkg": (False, False, "apps/a3pkg/__init__"),
+        "modules.m1": (False, False, None), "modules.pkg": (False, False, "modules/pkg/__init__"), "modules.pkg.sub": (False, False, None),
+    }
+    got = None
+    ex = exits(out)
+    for k, c, d in ex:
+        r = c.env.get("$ret")
+        if k == "return" and isinstance(r, DictV):
+            got = {}
+            for name, sf in r.items:
+                if isinstance(sf, DictV):
+                    al, ac, rip = sf.get(Const("autoload")), sf.get(Const("app_config")), sf.get(Const("rel_import_path"))
+                    got[name.v] = (getattr(al, "v", None), ac is not None and ac != Const(None), getattr(rip, "v", None))
+        else:
+            got = d
+    ctx.check(len(ex) == 1 and got == want, rid, uid, "discovery on the file-tree model",
+              msg=f"glob_read_files on the tree {DISCOVERY_TREE} with apps a1, a2 configured finds (context: autoload, has app config, package path) "
+              f"{got}; documented: {want} ('#' files and directories, unconfigured apps, apps/a1.py shadowed by the package and non-.py files are skipped)",
+              key="discovery model", node=program.func(uid), rel="__init__.py")
